@@ -54,14 +54,14 @@ def generate(rng, tier, stats):
         if nodes and r < 0.45:
             nd = rng.choice(nodes)["metadata"]["name"]
             key = "%s%s.%s.%s" % (P.RES_PREFIX, worldgen.NS, worldgen.EDS, rng.choice(conts))
-            ops.append(histgen.edit("Node", "", nd, rng.choice(["annotate:%s=%s" % (key, json.dumps({"limits": {"cpu": rng.choice(["3", "250m"])}})),
+            ops.append(histgen.edit("Node", "", nd, rng.choice(["annotate:%s=%s" % (key, json.dumps({"limits": {"cpu": rng.choice(["3", "250m", "0.25", "3000m"])}})),
                                                                  "unannotate:" + key, "annotate:%s={broken" % key])))
         elif r < 0.7:
             sets = [o for o in c["objects"] if o["kind"] == "ExtendedDaemonsetSetting"]
             if sets:
                 s2 = copy.deepcopy(rng.choice(sets))
                 for ent in s2["spec"]["containers"]:
-                    ent["resources"] = {"limits": {"cpu": rng.choice(["3", "750m"])}}
+                    ent["resources"] = {"limits": {"cpu": rng.choice(["3", "750m", "0.75", "75e-2", "3000m"])}}
                 s2.pop("status", None)
                 ops.append(K.apply(s2))
         ops += [K.sleep(11), K.reconcile("ers", worldgen.NS, target), histgen.kubelet("all"), K.sleep(11), K.reconcile("ers", worldgen.NS, target)]
